@@ -34,4 +34,48 @@ PROPS = {
         unbounded='fully symbolic value per type; compare loops have fixed <= 8 iterations and are fully unwound',
         assumptions=A_COMMON[:1] + ['host endianness is the build target\'s (x86_64 little-endian); the big-endian-host half of "regardless of the host" is by the same std functions, not re-proved on a BE target'],
     ),
+    'C02': dict(
+        verus=['gm'],
+        level='proof',
+        technique='Verus contracts on the extracted GuestMemoryRegion / GuestMemory default methods over an abstract lookup function s_find; data-structure invariant of the mmap collection in V-mmapcol',
+        claim='Unbounded proof that every provided default query (region: last_addr, address_in_range, check_address, checked_offset, to_region_addr; collection: to_region_addr, address_in_range, check_address, checked_offset, check_range, get_host_address, get_slice) returns exactly the set-theoretic answer with respect to the lookup function of the collection, for all addresses, lengths and offsets, for any implementation of the traits.',
+        unbounded='all region counts, addresses, lengths (Verus); holds for any GuestMemory implementation satisfying find_props',
+        assumptions=A_COMMON + ['GuestMemory::find_props: a found region is well formed, contains the address and owns every address of its range (trait-level lemma; discharged for GuestMemoryMmap in unit mmapcol)',
+                                'Address arithmetic contracts are those proved by Kani in C19'],
+    ),
+    'C03': dict(
+        verus=['gm', 'vol'],
+        level='proof',
+        technique='Verus contract on the extracted try_access loop (callback-precondition trick: the callback may only be called with the owning region, the right region offset and the capped length), loop invariant + decreases; contracts on the blanket Bytes<GuestAddress> methods',
+        claim='Unbounded proof that try_access hands chunk after chunk to the region owning the current address at offset (address - region start) with length min(rest of region, rest of request), stops at the first unmapped address, and that write/write_slice/read_slice/store/load report exactly the longest mapped run / InvalidGuestAddress / PartialBuffer{expected, completed} the property prescribes.',
+        unbounded='all layouts, addresses, buffer lengths (Verus)',
+        bounded='byte movement inside one region: Kani K-vs (C04); guest-level read/read_volatile_from/write_volatile_to closures capture &mut (outside Verus): Kani K-gmmock',
+        assumptions=A_COMMON + ['callbacks never report more than they were offered (true of every closure in the crate; stated as precondition of try_access)',
+                                'region-level Bytes<MemoryRegionAddress> contract (trait level) = what V-vol proves for VolatileSlice::write/read'],
+    ),
+    'C07': dict(
+        verus=['vol', 'gm'],
+        level='proof',
+        technique='implicit Verus obligations (no overflow/underflow, no division by zero, no out-of-range index, no failing unwrap/assert, termination via decreases) on every extracted function with guest-controlled parameters unconstrained',
+        claim='Unbounded proof of panic-freedom and termination for the extracted entry points: preconditions contain only type invariants (wf of accessors/regions), never a restriction on guest-chosen addresses, offsets, lengths or counts.',
+        unbounded='all values of all integer parameters',
+        assumptions=A_COMMON,
+    ),
+    'C17': dict(
+        verus=['vol'],
+        level='proof',
+        technique='Verus postconditions on ptr_guard/ptr_guard_mut of the three accessor kinds',
+        claim='Standard build: the guard of a slice / typed reference / element array points at the accessor\'s first byte and reports the number of bytes it covers (proved for all element types and counts). Xen on-demand part: see not_decided.',
+        unbounded='all element types and counts',
+        not_decided='Xen on-demand mapping windows (unit xen) not built yet',
+        assumptions=A_COMMON,
+    ),
+    'C18': dict(
+        verus=['vol', 'gm'],
+        level='proof',
+        technique='Verus postconditions `len == 0 ==> Ok(0)` on the byte-access entry points of all layers; division-by-zero obligations for zero-sized element types',
+        claim='Unbounded proof that empty-buffer reads/writes and slice forms return Ok(0)/Ok(()) for every address at slice and guest-memory level.',
+        unbounded='all addresses',
+        assumptions=A_COMMON,
+    ),
 }
